@@ -159,25 +159,25 @@ func Create(name string) (*os.File, error) {
 }
 
 // pass-through
-func Lstat(name string) (os.FileInfo, error)      { return os.Lstat(name) }
-func Stat(name string) (os.FileInfo, error)       { return os.Stat(name) }
-func ReadFile(name string) ([]byte, error)        { return os.ReadFile(name) }
-func ReadDir(name string) ([]os.DirEntry, error)  { return os.ReadDir(name) }
-func Open(name string) (*os.File, error)          { return os.Open(name) }
-func IsNotExist(err error) bool                   { return os.IsNotExist(err) }
-func IsExist(err error) bool                      { return os.IsExist(err) }
-func IsPermission(err error) bool                 { return os.IsPermission(err) }
-func Mkdir(name string, perm os.FileMode) error   { return os.Mkdir(name, perm) }
-func Chmod(name string, mode os.FileMode) error   { return os.Chmod(name, mode) }
-func Symlink(oldname, newname string) error       { return os.Symlink(oldname, newname) }
-func Readlink(name string) (string, error)        { return os.Readlink(name) }
-func Getenv(key string) string                    { return os.Getenv(key) }
-func TempDir() string                             { return os.TempDir() }
-func Getpid() int                                 { return os.Getpid() }
-func Getuid() int                                 { return os.Getuid() }
-func Exit(code int)                               { os.Exit(code) }
-func Hostname() (string, error)                   { return os.Hostname() }
+func Lstat(name string) (os.FileInfo, error)        { return os.Lstat(name) }
+func Stat(name string) (os.FileInfo, error)         { return os.Stat(name) }
+func ReadFile(name string) ([]byte, error)          { return os.ReadFile(name) }
+func ReadDir(name string) ([]os.DirEntry, error)    { return os.ReadDir(name) }
+func Open(name string) (*os.File, error)            { return os.Open(name) }
+func IsNotExist(err error) bool                     { return os.IsNotExist(err) }
+func IsExist(err error) bool                        { return os.IsExist(err) }
+func IsPermission(err error) bool                   { return os.IsPermission(err) }
+func Mkdir(name string, perm os.FileMode) error     { return os.Mkdir(name, perm) }
+func Chmod(name string, mode os.FileMode) error     { return os.Chmod(name, mode) }
+func Symlink(oldname, newname string) error         { return os.Symlink(oldname, newname) }
+func Readlink(name string) (string, error)          { return os.Readlink(name) }
+func Getenv(key string) string                      { return os.Getenv(key) }
+func TempDir() string                               { return os.TempDir() }
+func Getpid() int                                   { return os.Getpid() }
+func Getuid() int                                   { return os.Getuid() }
+func Exit(code int)                                 { os.Exit(code) }
+func Hostname() (string, error)                     { return os.Hostname() }
 func MkdirTemp(dir, pattern string) (string, error) { return os.MkdirTemp(dir, pattern) }
-func Truncate(name string, size int64) error      { return os.Truncate(name, size) }
-func Link(oldname, newname string) error          { return os.Link(oldname, newname) }
-func SameFile(a, b os.FileInfo) bool              { return os.SameFile(a, b) }
+func Truncate(name string, size int64) error        { return os.Truncate(name, size) }
+func Link(oldname, newname string) error            { return os.Link(oldname, newname) }
+func SameFile(a, b os.FileInfo) bool                { return os.SameFile(a, b) }
